@@ -1419,3 +1419,10 @@ package mcp
 //@ func WithSimpleRetry
 //@   sweep[C17] paramsro
 //@
+// C07 — what the client remembers from a stream and sends back later is always acceptable to net/http
+//@ func isValidEventID
+//@   function
+//@   ensures id == "" ==> result
+//@ type streamableHTTPClientTransport
+//@   invariant[C07 the-remembered-event-id-can-be-sent-as-a-header] isValidEventID(self.lastEventID)
+//@
